@@ -117,3 +117,72 @@ package logx
 //@   ensures [size-rule-gets-configured-limits] len(path) > 0 && options.rotationRule == "size" ==> calls(NewSizeLimitRotateRule) == 1 && arg(NewSizeLimitRotateRule, 0) == path && arg(NewSizeLimitRotateRule, 2) == options.keepDays && arg(NewSizeLimitRotateRule, 3) == options.maxSize && arg(NewSizeLimitRotateRule, 4) == options.maxBackups && arg(NewSizeLimitRotateRule, 5) == options.gzipEnabled
 //@   ensures [logger-on-path-with-rule] len(path) > 0 ==> calls(NewLogger) == 1 && arg(NewLogger, 0) == path && arg(NewLogger, 2) == options.gzipEnabled
 //@   ensures [size-rule-used] len(path) > 0 && options.rotationRule == "size" ==> arg(NewLogger, 1) == ret(NewSizeLimitRotateRule)
+
+// ---------------- the writer goroutine and its plumbing (C19) ----------------
+// Write hands the record (whole, the caller's slice) to the writer goroutine and reports its length, or - after
+// Close - reports ErrLogFileClosed having written nothing to the file.
+//@ func (*RotateLogger).Write
+//@   prop C19
+//@   opaque Println
+//@   requires l != nil
+//@   ensures [accepted-whole] result1 == nil ==> calls(on("send", l.channel)) == 1 && arg(on("send", l.channel), 0) == data && result0 == len(data)
+//@   ensures [closed-refused] result1 != nil ==> result1 == ErrLogFileClosed && result0 == 0 && calls(on("send", l.channel)) == 0 && calls(on("recv", l.done)) == 1
+// The worker: every record received is written exactly once, in arrival order (one goroutine, one at a time), and
+// the goroutine ends only when `done` is closed; it is registered with the wait group before it starts and signs
+// off when it ends.
+//@ func (*RotateLogger).startWorker
+//@   prop C19
+//@   requires l != nil
+//@   ensures [registered-before-start] calls("wg.Add") == 1 && arg("wg.Add", 0) == 1 && calls("go (*RotateLogger).startWorker$1") == 1 && before("wg.Add", "go (*RotateLogger).startWorker$1")
+//@ func (*RotateLogger).startWorker$1
+//@   prop C19
+//@   opaque write
+//@   loop 1 iteration-ensures [each-record-written-once] calls(on("recv", l.channel)) == 1 && calls(l.write, ret(on("recv", l.channel))) == 1 && calls(write) == 1
+//@   ensures [ends-on-done-and-signs-off] calls(on("recv", l.done)) == 1 && calls("wg.Done") == 1 && calls(write) == 0
+// Close: once; stops the worker, waits for it, then syncs and closes the file (a sync error is returned and the
+// file left open for the caller to see).
+//@ func (*RotateLogger).Close
+//@   prop C19
+//@   requires l != nil
+//@   ensures [through-once] calls(l.closeOnce.Do) == 1
+//@ func (*RotateLogger).Close$1
+//@   prop C19
+//@   ensures [stop-wait-sync-close] calls(on("close", l.done)) == 1 && calls("wg.Wait") == 1 && calls(Sync) == 1 && before(on("close", l.done), "wg.Wait") && before("wg.Wait", Sync)
+//@   ensures [sync-error-returned] ret(Sync) != nil ==> err == ret(Sync) && calls(Close) == 0
+//@   ensures [closed-after-sync] ret(Sync) == nil ==> calls(l.fp.Close) == 1 && err == ret(Close) && before(Sync, Close)
+// NewLogger: the logger is initialised before its worker starts; a failed init starts nothing.
+//@ func NewLogger
+//@   prop C19
+//@   opaque init, startWorker
+//@   ensures [init-failed] ret(init) != nil ==> result0 == nil && result1 == ret(init) && calls(startWorker) == 0
+//@   ensures [started] ret(init) == nil ==> result1 == nil && result0 != nil && result0.filename == filename && result0.rule == rule && result0.compress == compress && calls(result0.startWorker) == 1 && before(init, startWorker)
+// After a rotation the backup is compressed (when configured) and old backups removed, off the writer goroutine.
+//@ func (*RotateLogger).postRotate
+//@   prop C19
+//@   ensures [in-the-background] calls("go (*RotateLogger).postRotate$1") == 1
+//@ func (*RotateLogger).postRotate$1
+//@   prop C19
+//@   opaque maybeCompressFile, maybeDeleteOutdatedFiles
+//@   ensures [compress-then-clean] calls(l.maybeCompressFile, file) == 1 && calls(l.maybeDeleteOutdatedFiles) == 1 && before(maybeCompressFile, maybeDeleteOutdatedFiles)
+//@ func (*RotateLogger).maybeCompressFile
+//@   prop C19
+//@   opaque compressLogFile, ErrorStack
+//@   may-panic compressLogFile
+//@   nopanic
+//@   requires l != nil
+//@   ensures [only-when-configured] !l.compress ==> calls(compressLogFile) == 0 && calls(os.Stat) == 0
+//@   ensures [existing-backup-compressed] l.compress && ret(os.Stat, 1) == nil ==> calls(compressLogFile, file) == 1
+//@   ensures [missing-backup-skipped] l.compress && ret(os.Stat, 1) != nil ==> calls(compressLogFile) == 0
+// gzipFile: the original is removed only after the compressed copy was written and closed without error.
+//@ func gzipFile
+//@   prop C19
+//@   opaque Sprintf
+//@   ensures [open-error] ret(os.Open, 1) != nil ==> result == ret(os.Open, 1) && calls(os.Create) == 0 && calls(os.Remove) == 0
+//@   ensures [create-error] ret(os.Open, 1) == nil && ret(os.Create, 1) != nil ==> result == ret(os.Create, 1) && calls(os.Remove) == 0
+//@   ensures [copy-or-close-error-keeps-original] ret(os.Open, 1) == nil && ret(os.Create, 1) == nil && (ret(io.Copy, 1) != nil || ret(io.Copy, 1) == nil && ret(Close, 0, 1) != nil) ==> result != nil && calls(os.Remove) == 0
+//@   ensures [original-removed-after-success] ret(os.Open, 1) == nil && ret(os.Create, 1) == nil && ret(io.Copy, 1) == nil && ret(Close, 0, 1) == nil ==> calls(os.Remove, file) == 1 && result == ret(os.Remove) && before(io.Copy, os.Remove)
+//@   ensures [compressed-name] calls(os.Create) == 1 ==> arg(os.Create, 0) == ret(fmt.Sprintf)
+//@ func (*RotateLogger).getBackupFilename
+//@   prop C19
+//@   requires l != nil
+//@   ensures [recorded-name-else-from-rule] (len(l.backup) > 0 ==> result == l.backup && calls(BackupFilename) == 0) && (len(l.backup) == 0 ==> calls(l.rule.BackupFilename) == 1 && result == ret(BackupFilename))
